@@ -5,12 +5,17 @@
 #include <mdspan/mdspan.hpp>
 
 namespace drv {
-namespace KE = Kokkos::Experimental;
 
 template <class M, size_t... I>
 auto call_map(const M &m, const std::array<typename M::index_type, sizeof...(I)> &ix, std::index_sequence<I...>) {
   return m(ix[I]...);
 }
+
+// C++14-compatible replacements for `if constexpr`
+template <class M, class V> void strides_of(const M &m, V &v, size_t R, std::true_type) { for (size_t k = 0; k < R; ++k) v.push_back(to_i128(m.stride(k))); }
+template <class M, class V> void strides_of(const M &, V &, size_t, std::false_type) {}
+template <class M> std::string strides_member(const M &m, std::true_type) { auto s = m.strides(); return Out::list(s.begin(), s.end()); }
+template <class M> std::string strides_member(const M &, std::false_type) { return "-"; }
 
 template <class M, int LAY> struct MakeMap;
 template <class M> struct MakeMap<M, 0> { // left / right: from extents
@@ -50,14 +55,30 @@ template <class M, int LAY> void run_map(long caseno, Toks &tk) {
   { std::vector<i128> v; for (size_t k = 0; k < R; ++k) v.push_back(to_i128(m.extents().extent(k))); o.field("ext", Out::list(v)); }
   o.field("span", str_i128(to_i128(m.required_span_size())));
   { std::vector<i128> v;
-    if constexpr (R > 0) { for (size_t k = 0; k < R; ++k) v.push_back(to_i128(m.stride(k))); }
+    strides_of(m, v, R, std::integral_constant<bool, (R > 0)>{});
     o.field("st", Out::list(v)); }
-  if constexpr (LAY >= 2) { auto s = m.strides(); o.field("strides", Out::list(s.begin(), s.end())); }
-  else o.field("strides", "-");
+  o.field("strides", strides_member(m, std::integral_constant<bool, (LAY >= 2)>{}));
   { std::string f;
     f += m.is_unique() ? '1' : '0'; f += m.is_exhaustive() ? '1' : '0'; f += m.is_strided() ? '1' : '0';
     f += M::is_always_unique() ? '1' : '0'; f += M::is_always_exhaustive() ? '1' : '0'; f += M::is_always_strided() ? '1' : '0';
     o.field("fl", f); }
+  { // the same observers through an mdspan over this mapping (never dereferenced)
+    using L = typename M::layout_type;
+    Kokkos::mdspan<int, E, L> sp(static_cast<int *>(nullptr), m);
+    std::string f;
+    f += sp.is_unique() ? '1' : '0'; f += sp.is_exhaustive() ? '1' : '0'; f += sp.is_strided() ? '1' : '0';
+    f += sp.is_always_unique() ? '1' : '0'; f += sp.is_always_exhaustive() ? '1' : '0'; f += sp.is_always_strided() ? '1' : '0';
+    o.field("mfl", f);
+    o.field("sz", str_i128(to_i128(sp.size())));
+    o.field("emp", sp.empty() ? "1" : "0");
+    std::vector<i128> me, ms, se;
+    for (size_t k = 0; k < R; ++k) { me.push_back(to_i128(sp.extent(k))); se.push_back(sp.static_extent(k) == Kokkos::dynamic_extent ? -1 : to_i128(sp.static_extent(k))); }
+    strides_of(sp, ms, R, std::integral_constant<bool, (R > 0)>{});
+    o.field("mext", Out::list(me)); o.field("mst", Out::list(ms));
+    std::vector<i128> rk{to_i128(sp.rank()), to_i128(sp.rank_dynamic())};
+    o.field("rk", Out::list(rk)); o.field("sext", Out::list(se));
+    static_assert(std::is_same<typename decltype(sp)::size_type, std::make_unsigned_t<T>>::value, "size_type");
+  }
   { std::vector<i128> offs;
     std::array<T, R> ix{};
     if (nidx < 0) {
